@@ -8,6 +8,7 @@ import (
 	"bytes"
 	"fmt"
 	"io"
+	"math"
 	"reflect"
 )
 
@@ -63,4 +64,27 @@ func ReadMessage(r io.Reader) (msg Message, err error) {
 
 	err = msg.Unmarshal(mr)
 	return
+}
+
+// readBytes reads exactly n bytes from r. Small amounts are read into a buffer of
+// that size; for larger ones the buffer grows with the data which actually
+// arrives, so that a length field alone cannot cause a huge allocation.
+func readBytes(r io.Reader, n uint64) ([]byte, error) {
+	if n > math.MaxInt32 {
+		return nil, fmt.Errorf("length of %d bytes is too large", n)
+	}
+
+	if n <= 1024*1024 {
+		buf := make([]byte, n)
+		_, err := io.ReadFull(r, buf)
+		return buf, err
+	}
+
+	var buf bytes.Buffer
+	if _, err := io.CopyN(&buf, r, int64(n)); err == io.EOF {
+		return nil, io.ErrUnexpectedEOF
+	} else if err != nil {
+		return nil, err
+	}
+	return buf.Bytes(), nil
 }
